@@ -4,6 +4,7 @@ so the file stays right after a rebase). 'known' entries and comments are kept a
 import json, os, re, subprocess
 ROOT = os.path.dirname(os.path.dirname(os.path.abspath(__file__)))
 RULES = [
+    (r'special methods an instance inherits', 'C16'),
     (r"'break' inside a try or with", 'C12'),
     (r'more than 255 arguments', 'C04'),
     (r'resumed inside an except block', 'C05'),
